@@ -22,7 +22,7 @@ META = {
              "by content hash"),
     "require": {t: ["calls:calculate", "calls:shortcut", "calls:construct", "calls:walk", "calls:index_method",
                     "cube:ccube", "cube:xcube", "perm:checked", "reuse_other_cube:checked", "class:garbage_under_false",
-                    "reuse_other_rowcount:checked"]
+                    "reuse_other_rowcount:checked", "repeated_object_in_list:checked", "reuse_zero_dim_cube:checked"]
                 for t in ("quick", "thorough")},
     "assumptions": ["diagnostic counters (tracing dicts, intersection_data_points) are not part of the result and not compared"],
 }
@@ -194,6 +194,20 @@ def judge(ctx, case):
                 ctx.violation("permutation:%s:%s" % (kind, case["aggs"][i]),
                               "under order %r the result of function %d (%s) changes" % (perm, i, case["aggs"][i]), case)
                 return
+    # the same aggregate object may be listed more than once
+    if len(funcs) >= 2:
+        j = int(prng.integers(0, len(funcs)))
+        lst = list(funcs) + [funcs[j]]
+        pos = int(prng.integers(0, len(lst)))
+        lst.insert(pos, funcs[j])
+        rr = cube.calculate(lst)
+        ctx.count("calls:calculate")
+        ctx.count("repeated_object_in_list:checked")
+        for item, res in zip(lst, rr):
+            if not same(res, r_all[funcs.index(item)]):
+                ctx.violation("repeated-object-in-list:%s:%s" % (kind, case["aggs"][funcs.index(item)]),
+                              "with the same aggregate object listed more than once, calculate(list) differs from calculate([it])", case)
+                return
     again = cube.calculate(funcs)
     ctx.count("calls:calculate")
     if not all(same(a, b) for a, b in zip(again, r_all)):
@@ -217,6 +231,24 @@ def judge(ctx, case):
             ctx.violation("reuse-other-cube:%s" % feat, "after using the same aggregate objects on another cube the results on the first cube change", case)
             return
     if dense:
+        # ... and on a cube without dimensions in between (same rows, one cell)
+        zero = cls([])
+        usable = [f for f, a, inp in zip(funcs, case["aggs"], case["inputs"])
+                  if not (a == "count" and inp["weights"]["kind"] in ("none", "scalar"))]
+        if usable:
+            zr = [freeze(r) for r in zero.calculate(usable)]
+            fresh_z = [make_func(kind, a, inp, f.return_missing_as)[0] for f, a, inp in zip(funcs, case["aggs"], case["inputs"]) if f in usable]
+            want_z = cls([]).calculate(fresh_z)
+            ctx.count("reuse_zero_dim_cube:checked")
+            if not all(same(a, b) for a, b in zip(zr, want_z)):
+                ctx.violation("reused-object-differs-on-dimensionless-cube:%s" % feat,
+                              "aggregate objects already used on a cube give, on a dimensionless cube, results different from fresh objects", case)
+                return
+            back = cube.calculate(funcs)
+            if not all(same(a, b) for a, b in zip(back, r_all)):
+                ctx.violation("reuse-after-dimensionless-cube:%s" % feat,
+                              "after using the same aggregate objects on a dimensionless cube the results on the first cube change", case)
+                return
         # aggregate functions that carry no row-aligned argument may be re-used on a cube with another row count
         if not reuse_other_rowcount(ctx, case, kind, cls):
             return
